@@ -763,8 +763,29 @@ def copying(B):
     B.obs.append(('ls', B.listing('rc3')))
 
 
+def interleave(B):
+    d = B.darr
+    a = d.asarray(B.path('a'), B.arr('x', 7, (), 'int32', 'little'), accessmode='r+')
+    g = a.iterchunks(3)
+    B.obs.append(('c0', B.value(next(g))))
+    with a.open_array():
+        B.obs.append(('r', B.value(a[0:2])))
+        attempt(B, 'w', lambda: a.__setitem__(slice(0, 1), 9))
+        with a.open_array():
+            B.obs.append(('c1', B.value(next(g))))
+        B.obs.append(('r2', B.value(a[0:2])))
+    B.obs.append(('c2', B.value(next(g))))
+    attempt(B, 'stop', lambda: next(g))
+    handle(B, 'h', a)
+    g2 = a.iterchunks(2, stepsize=3, startindex=1, endindex=6, include_remainder=False)
+    B.obs.append(('g2', [B.value(x) for x in g2]))
+    B.obs.append(('idx', list(a.iterindices(2, stepsize=3, startindex=1, endindex=7))))
+    attempt(B, 'badend', lambda: list(a.iterindices(2, endindex=9)))
+    attempt(B, 'badstart', lambda: list(a.iterindices(2, startindex=7)))
+
+
 SCENARIOS = {f.__name__: f for f in [array_basic, array_append, array_truncate, array_assign,
-                                        array_failappend, ragged_basic, ragged_fail, readonly, metadata, baddescr, foreign, datadir, creation, copying]}
+                                        array_failappend, ragged_basic, ragged_fail, readonly, metadata, baddescr, foreign, datadir, creation, copying, interleave]}
 
 
 def run(names, stub_readme=True):
